@@ -12,6 +12,12 @@ type PropDef struct {
 var propOrder = []string{"C01", "C02", "C03", "C04", "C05", "C06", "C07", "C08", "C09", "C11", "C12", "C13", "C14", "C15", "C16", "C17", "C18", "C19", "C20"}
 
 var props = map[string]*PropDef{
+	"C09": {
+		Rules:      []string{"V1-1", "V1-2", "V1-3", "V1-4", "OPT-1", "FLAGSYM-1"},
+		Decided:    "(in progress)",
+		NotDecided: "(in progress)",
+		Technique:  "structural",
+	},
 	"C18": {
 		Rules:      []string{"POOL-1", "POOL-2", "POOL-3", "GLOBAL-1", "ONCE-1", "DET-1", "INTERN-1", "CYCLE-1"},
 		Decided:    "(in progress)",
